@@ -14,6 +14,14 @@ CHECKS = ("sem", "edges", "nodup")
 SIGS = ("semantics", "edge-delivery", "edge-altered", "duplicated", "plumbing")
 
 CORPUS = [
+    # unique with a bounded history: a value repeated back to back must not take a second slot of the history (both storage forms)
+]
+for _h in (False, True):
+    for _m, _seq in ((2, (1, 2, 2, 1, 3, 3, 2, 1)), (3, (1, 2, 3, 3, 3, 1, 2, 4, 4, 1)), (1, (1, 1, 2, 2, 1)), (2, (1, 1, 1, 2, 1, 3, 1))):
+        CORPUS.append({"mode": "sync", "nodes": [{"kind": "source", "ups": []}, {"kind": "unique", "ups": [0], "maxsize": _m, "key": ["id"], "hashable": _h},
+                                                 {"kind": "sink", "mode": "sync", "f": ["id"], "ups": [1]}],
+                       "ops": [{"op": "emit", "node": 0, "val": v, "md": []} for v in _seq]})
+CORPUS += [
     # None (and other non-integer values) are elements like any other: combining nodes must not read them as "nothing yet"
     {"mode": "sync", "nodes": [{"kind": "source", "ups": []}, {"kind": "source", "ups": []}, {"kind": "combine_latest", "ups": [0, 1], "emit_on": None},
                                {"kind": "sink", "mode": "sync", "f": ["id"], "ups": [2]}],
